@@ -794,7 +794,10 @@ impl Client {
         let mut old_relay_cur_latency = Duration::default();
         {
             for (_, url, duration) in r.relay_latency.iter() {
-                if Some(url) == prev_relay.as_ref() {
+                // The old relay may be measured by several probe kinds: keep the lowest.
+                if Some(url) == prev_relay.as_ref()
+                    && (old_relay_cur_latency.is_zero() || duration < old_relay_cur_latency)
+                {
                     old_relay_cur_latency = duration;
                 }
                 if let Some(best) = best_recent.get(url)
